@@ -18,6 +18,9 @@ from ..absint import Interp
 from ..poly import Poly, le, lt, eq
 from ..roles import RoleFlow, check_call
 from ..divis import Divis
+from ..terms import Terms, reify, plain, stores, match, V, ANY, show, \
+    subterms, mk_cmp, is_none, method_calls, alternatives
+from ..util import resolve_tmp, returns_of
 from ..util import calls_in, qual, formals, bind, has_fact, parse_expr, \
     raises_of, raise_name
 
@@ -154,10 +157,15 @@ def r1_scp_read(program, folder, rep):
     # cursor: the address sent, and the result-slice offset
     cb = b.get("callback")
     sl = None
+    fl0 = Flow(fn, consts=consts)
+    n0 = fl0.cfg.node_containing(call)
+    cb = resolve_tmp(fl0, cb, n0) if cb is not None else None
     if isinstance(cb, ast.Call) and call_name(cb)[0] == "partial" and \
-            len(cb.args) >= 2 and isinstance(cb.args[1], ast.Subscript) and \
-            isinstance(cb.args[1].slice, ast.Slice):
-        sl = cb.args[1]
+            len(cb.args) >= 2:
+        a1_ = resolve_tmp(fl0, cb.args[1], n0)
+        if isinstance(a1_, ast.Subscript) and \
+                isinstance(a1_.slice, ast.Slice):
+            sl = a1_
     rep.check(sl is not None and sl.slice.lower is not None and
               sl.slice.upper is not None, "C07-R1", inst,
               "each read command's callback is bound to its own slice of the "
@@ -442,12 +450,14 @@ def r2_dtype(program, folder, rep, sites):
                     enode = node
             else:
                 enode = node
+            key_ = resolve_tmp(fl, e.slice, enode) if isinstance(
+                e, ast.Subscript) else None
             if isinstance(e, ast.Subscript) and chain(e.value) == \
                     "consts.address_length_dtype" and \
-                    isinstance(e.slice, ast.Tuple) and \
-                    len(e.slice.elts) == 2:
-                k0 = fl.sym(e.slice.elts[0], enode)
-                k1 = fl.sym(e.slice.elts[1], enode)
+                    isinstance(key_, ast.Tuple) and \
+                    len(key_.elts) == 2:
+                k0 = fl.sym(key_.elts[0], enode)
+                k1 = fl.sym(key_.elts[1], enode)
                 A = fl.sym(b["arg1"], node)
                 N = fl.sym(b["arg2"], node)
                 wa, wn = fl.mod(A, Poly.const(4)), fl.mod(N, Poly.const(4))
@@ -467,15 +477,22 @@ def r2_dtype(program, folder, rep, sites):
 
 def r3_payload(program, folder, rep):
     fn = program.get(SCP + ":SCPConnection.read.callback")
+    outer_fn = program.get(SCP + ":SCPConnection.read")
     env = folder.module_env(SCP)
+    OT = Terms(outer_fn)
+    dn = [n for n in OT.cfg.nodes if n.kind == "stmt" and n.ast is fn]
+    T = Terms(fn, outer=(OT, dn[0] if dn else OT.cfg.exit))
     ok = False
     got = None
-    for n in ast.walk(fn):
-        if isinstance(n, ast.Subscript) and isinstance(n.slice, ast.Slice) \
-                and n.slice.lower is not None and n.slice.upper is None and \
-                isinstance(n.ctx, ast.Load):
-            got = folder.eval(n.slice.lower, env, fn._module)
-            import struct
+    import struct
+    for n_, st, base, key, val in stores(T):
+        if val[0] == "item" and val[2][0] == "slice" and \
+                val[2][2] == ("const", None) and \
+                val[1] == ("param", formals(fn)[1]):
+            try:
+                got = folder.eval(reify(plain(val[2][1])), env, fn._module)
+            except AnalysisError:
+                got = None
             ok = got == struct.calcsize("<2x8B") + struct.calcsize("<2H")
     rep.check(ok, "C07-R3", qual(fn), "the read payload starts after the "
               "SDP header (10 bytes) and cmd_rc/seq (4 bytes): offset 14 (no "
@@ -486,74 +503,99 @@ def r3_payload(program, folder, rep):
 
 
 def r4_addresses(program, folder, rep):
+    SELF = ("param", "self")
+    SB = ("attr", ("global", "six"), "b")
+
+    def sixb(t):
+        return ("callv", SB, (t,), ())
     fn = program.get(MC + ":MachineController._get_struct_field_and_address")
-    fl = Flow(fn)
+    T = Terms(fn)
     ps = formals(fn)
-    ok = False
-    for d in fl.defs:
-        if d.var == "address" and d.mode == "assign":
-            v = d.value
-            if isinstance(v, ast.BinOp) and isinstance(v.op, ast.Add):
-                parts = {unparse(v.left), unparse(v.right)}
-                ok = parts == {"self.structs[six.b(%s)].base" % ps[1],
-                               "field.offset"}
-    fd = [d for d in fl.defs if d.var == "field" and d.mode == "assign"]
-    okf = len(fd) == 1 and unparse(fd[0].value) == \
-        "self.structs[six.b(%s)][six.b(%s)]" % (ps[1], ps[2])
-    rep.check(ok and okf, "C07-R4", qual(fn), "struct field address = "
+    rets = [plain(T.term(r.value)) for r in returns_of(fn)
+            if r.value is not None]
+    STRUCT = ("item", ("attr", SELF, "structs"),
+              ("call", SB, (("param", ps[1]),), ()))
+    FIELD = ("item", STRUCT, ("call", SB, (("param", ps[2]),), ()))
+    ok = len(rets) == 1 and rets[0][0] == "tuple" and len(rets[0]) == 4 and \
+        rets[0][1] == FIELD and rets[0][2] in (
+            ("binop", "Add", ("attr", STRUCT, "base"),
+             ("attr", FIELD, "offset")),
+            ("binop", "Add", ("attr", FIELD, "offset"),
+             ("attr", STRUCT, "base")))
+    rep.check(ok, "C07-R4", qual(fn), "struct field address = "
               "base of the named struct + offset of the named field",
               construct="struct field address", node=fn)
     fn = program.get(MC + ":MachineController._get_vcpu_field_and_address")
+    T = Terms(fn)
     fl = Flow(fn)
     ps = formals(fn)
+    rets = [T.term(r.value) for r in returns_of(fn) if r.value is not None]
     ok = False
-    for d in fl.defs:
-        if d.var == "address" and d.mode == "assign":
-            val = fl.sym(d.value, d.node)
-            # base + size * p + offset
-            atoms = val.atoms()
-            P = ps[4]
-            terms = dict(val.t)
-            size_p = [m for m in terms if len(m) == 2 and P in m]
-            rest = [m for m in terms if len(m) == 1]
-            ok = len(size_p) == 1 and terms[size_p[0]] == 1 and \
-                any("size" in a for a in size_p[0]) and len(rest) == 2 and \
-                all(terms[m] == 1 for m in rest) and \
-                any("offset" in m[0] for m in rest) and \
-                any("read_struct_field" in m[0] or "call:" in m[0]
-                    for m in rest) and () not in terms
+    if len(rets) == 1 and rets[0][0] == "tuple" and len(rets[0]) == 4:
+        e = reify(plain(rets[0][2]))
+        for n_ in ast.walk(e):
+            for c_ in ast.iter_child_nodes(n_):
+                c_._parent = n_
+        ast.fix_missing_locations(e)
+        val = fl.sym(e, fl.cfg.entry)
+        P = ps[4]
+        terms = dict(val.t)
+        size_p = [m for m in terms if len(m) == 2 and P in m]
+        rest = [m for m in terms if len(m) == 1]
+        ok = len(size_p) == 1 and terms[size_p[0]] == 1 and \
+            any("size" in a_ for a_ in size_p[0]) and len(rest) == 2 and \
+            all(terms[m] == 1 for m in rest) and \
+            any("offset" in m[0] for m in rest) and \
+            any("read_struct_field" in m[0] or "call:" in m[0]
+                for m in rest) and () not in terms
+        base = [st for st in subterms(plain(rets[0][2]))
+                if st[0] == "call" and st[1] == ("attr", SELF,
+                                                 "read_struct_field")]
+        ok = ok and len(base) == 1 and base[0][2][:2] == (
+            ("const", "sv"), ("const", "vcpu_base")) and \
+            list(base[0][2][2:4]) == [("param", ps[2]), ("param", ps[3])]
     rep.check(ok, "C07-R4", qual(fn), "per-core field address = vcpu_base + "
               "vcpu.size * p + field.offset",
               construct="vcpu field address", node=fn)
     # fill
     fn = program.get(MC + ":MachineController.fill")
-    fl = Flow(fn)
+    T = Terms(fn)
     ps = formals(fn)
-    addr, size = ps[1], ps[3]
+    ADDR, DATA, SIZE = [("param", p_) for p_ in ps[1:4]]
+    a4 = mk_cmp("Eq", ("binop", "Mod", ADDR, ("const", 4)), ("const", 0))
+    s4 = mk_cmp("Eq", ("binop", "Mod", SIZE, ("const", 4)), ("const", 0))
+    a4t = ("binop", "Mod", ADDR, ("const", 4))
+    s4t = ("binop", "Mod", SIZE, ("const", 4))
+
+    def aligned(facts):
+        fs = set(facts)
+        return ((a4, True) in fs or (a4t, False) in fs) and \
+            ((s4, True) in fs or (s4t, False) in fs)
     fills = [c for c in calls_in(fn, "_send_scp")]
-    ok = False
-    for c in fills:
-        node = fl.cfg.node_containing(c)
-        f = fl.facts(node)
-        ok = (has_fact(f, "%s %% 4" % size, False) and
-              has_fact(f, "%s %% 4" % addr, False))
-    rep.check(ok and len(fills) == 1, "C07-R4", qual(fn), "the word-fill "
+    ok = len(fills) == 1 and aligned(T.all_facts(
+        T.cfg.node_containing(fills[0])))
+    rep.check(ok, "C07-R4", qual(fn), "the word-fill "
               "command is used only when both size and address are multiples "
               "of 4", construct="fill alignment branch", node=fn)
-    ws = calls_in(fn, "write")
     okb = False
-    for c in ws:
-        if c.args and len(c.args) >= 2:
-            node = fl.cfg.node_containing(c)
-            dd = fl.reaching(chain(c.args[1]), node)
-            if len(dd) == 1 and isinstance(dd[0].value, ast.BinOp) and \
-                    isinstance(dd[0].value.op, ast.Mult):
-                v = dd[0].value
-                sides = [v.left, v.right]
-                okb = any(chain(s_) == size for s_ in sides) and any(
-                    isinstance(s_, ast.Call) and call_name(s_)[0] == "pack"
-                    and folder.eval(s_.args[0], {}, fn._module) == "<B"
-                    for s_ in sides) and chain(c.args[0]) == addr
+    for sub in [fn] + [x for x in ast.walk(fn)
+                       if isinstance(x, ast.FunctionDef) and x is not fn]:
+        for view in ([T] if sub is fn else T.inners(sub)):
+            for c in ast.walk(sub):
+                if isinstance(c, ast.Call) and \
+                        isinstance(c.func, ast.Attribute) and \
+                        c.func.attr == "write" and len(c.args) >= 2:
+                    n_ = view.cfg.node_containing(c)
+                    if view.term(c.func.value, n_) != SELF:
+                        continue
+                    v = plain(view.term(c.args[1], n_))
+                    okb = v[0] == "binop" and v[1] == "Mult" and \
+                        SIZE in (v[2], v[3]) and any(
+                            x[0] == "call" and x[1] == (
+                                "attr", ("global", "struct"), "pack") and
+                            x[2] == (("const", "<B"), DATA)
+                            for x in (v[2], v[3])) and \
+                        view.term(c.args[0], n_) == ADDR
     rep.check(okb, "C07-R4", qual(fn), "otherwise an explicit string of "
               "exactly `size` bytes is written at the address",
               construct="fill byte fallback", node=fn)
